@@ -1075,6 +1075,52 @@ pub fn sweep_cases(r: &mut Rng, tier: Tier) -> Vec<Case08> {
                               key: KeyId::Hmac1, fmt: if k % 2 == 0 { Fmt::Compact } else { Fmt::Json }, want: Want::Draft, own_view: None, affected: vec![], withheld: 0 });
         }
     }
+    // _sd_alg in spellings near the one supported name: anything but exactly "sha-256" (or absent) names an unsupported hash
+    {
+        let d = b64_json(&json!(["c2FsdC1hbGc", "given_name", "Erika"]));
+        for (k, alg) in [json!(" sha-256"), json!("sha-256 "), json!("sha-256\n"), json!("\tsha-256"), json!("SHA-256"), json!("Sha-256"), json!("sha256"), json!("sha_256"), json!("sha-256\u{0}"), json!("sha-256,sha-512"), json!("sha\u{2d}256x"),
+                         json!("sha-384"), json!("sha-512"), json!("sha3-256"), json!(""), json!(["sha-256"]), json!({"alg": "sha-256"}), json!(256), json!(true), json!(null)].into_iter().enumerate() {
+            let payload = json!({"iss": "https://issuer.example", "exp": far, "_sd_alg": alg, "_sd": [hash(&d)]});
+            for presented in [vec![d.clone()], vec![]] {
+                out.push(Case08 { class: format!("sweep.sd_alg_spelling: {} {}", alg, if presented.is_empty() { "nothing-presented" } else { "presented" }), devs: vec![], claims: Value::Null, payload: payload.clone(), all: vec![d.clone()], presented,
+                                  key: KeyId::Hmac1, fmt: if k % 2 == 0 { Fmt::Compact } else { Fmt::Json }, want: Want::Reject, own_view: None, affected: vec![], withheld: 0 });
+            }
+        }
+        for (k, payload) in [json!({"iss": "https://issuer.example", "exp": far, "_sd_alg": "sha-256", "_sd": [hash(&d)]}), json!({"iss": "https://issuer.example", "exp": far, "_sd": [hash(&d)]})].into_iter().enumerate() {
+            out.push(Case08 { class: format!("sweep.sd_alg_spelling: control {}", k), devs: vec![], claims: Value::Null, payload, all: vec![d.clone()], presented: vec![d.clone()],
+                              key: KeyId::Hmac1, fmt: if k % 2 == 0 { Fmt::Compact } else { Fmt::Json }, want: Want::Draft, own_view: None, affected: vec![], withheld: 0 });
+        }
+    }
+    // disclosures whose JSON TEXT spells the reserved member names with escapes (the value is the same JSON value): nested digests
+    // are processed, nested ill-formed entries and repeated digests rejected, exactly as for the plain spelling
+    {
+        let inner = b64_json(&json!(["c2FsdC1pbm5lci1lc2M", "country", "DE"]));
+        let inner_el = b64_json(&json!(["c2FsdC1pbm5lci1lbGU", "second"]));
+        let (hi, he) = (hash(&inner), hash(&inner_el));
+        let texts: Vec<(&str, String, bool)> = vec![
+            ("escaped-_sd-in-member-disclosure", format!("[\"c2FsdC1vdXRlci1lc2M\",\"address\",{{\"\\u005fsd\":[\"{}\"],\"street\":\"S\"}}]", hi), true),
+            ("escaped-_sd-fully", format!("[\"c2FsdC1vdXRlci1lc2My\",\"address\",{{\"\\u005f\\u0073\\u0064\":[\"{}\"]}}]", hi), true),
+            ("escaped-placeholder-in-member-disclosure", format!("[\"c2FsdC1vdXRlci1lc2Mz\",\"list\",[\"first\",{{\"\\u002e..\":\"{}\"}}]]", he), true),
+            ("escaped-placeholder-in-element-disclosure", format!("[\"c2FsdC1vdXRlci1lc2M0\",[{{\".\\u002e.\":\"{}\"}}]]", he), false),
+            ("spaced-and-escaped", format!("[ \"c2FsdC1vdXRlci1lc2M1\" , \"address\" , {{ \"\\u005Fsd\" : [ \"{}\" ] }} ]", hi), true),
+        ];
+        for (k, (name, text, member)) in texts.into_iter().enumerate() {
+            let outer = b64(text.as_bytes());
+            let ho = hash(&outer);
+            let payload = if member { json!({"iss": "https://issuer.example", "exp": far, "_sd_alg": "sha-256", "_sd": [ho]}) } else { json!({"iss": "https://issuer.example", "exp": far, "_sd_alg": "sha-256", "arr": [{"...": ho}]}) };
+            for (shape, presented) in [("all", vec![outer.clone(), inner.clone(), inner_el.clone()]), ("outer-only", vec![outer.clone()])] {
+                // the unreferenced one of inner / inner_el is dropped from "all" so that no unreferenced disclosure is presented
+                let presented: Vec<String> = presented.into_iter().filter(|d| *d == outer || (text.contains(&hi) && *d == inner) || (text.contains(&he) && *d == inner_el)).collect();
+                out.push(Case08 { class: format!("sweep.reserved_names_spelled_with_escapes: {} {}", name, shape), devs: vec![], claims: Value::Null, payload: payload.clone(), all: presented.clone(), presented,
+                                  key: KeyId::Hmac1, fmt: if k % 2 == 0 { Fmt::Compact } else { Fmt::Json }, want: Want::Draft, own_view: None, affected: vec![], withheld: 0 });
+            }
+            // the nested digest also at top level: a repeated digest
+            let mut dup = payload.clone();
+            dup["again"] = json!({"_sd": [if text.contains(&hi) { hi.clone() } else { he.clone() }]});
+            out.push(Case08 { class: format!("sweep.reserved_names_spelled_with_escapes: {} digest-repeated", name), devs: vec![], claims: Value::Null, payload: dup, all: vec![outer.clone()], presented: vec![outer.clone()],
+                              key: KeyId::Hmac1, fmt: if k % 2 == 1 { Fmt::Compact } else { Fmt::Json }, want: Want::Reject, own_view: None, affected: vec![], withheld: 0 });
+        }
+    }
     // a disclosed array element (or member value) that itself LOOKS like a placeholder: the specification decides what the
     // result is; the inner string is the digest of another presented disclosure, of nothing, or no digest at all
     {
